@@ -34,6 +34,33 @@ class FakePath:
             out = out.replace('${' + k + '}', v).replace('$' + k, v)
         return out
 
+    def isfile(self, p):
+        return p in self.fs.files or p in self.fs.sockets
+
+    def isdir(self, p):
+        return p in self.fs.dirs
+
+    def getmtime(self, p):
+        if not self.exists(p):
+            raise FileNotFoundError(p)
+        return float(self.fs.mtimes.get(p, 1_700_000_000))
+
+    getctime = getmtime
+
+    def getsize(self, p):
+        if p in self.fs.files:
+            return len(self.fs.files[p].encode())
+        if not self.exists(p):
+            raise FileNotFoundError(p)
+        return 4096
+
+    def abspath(self, p):
+        return posixpath.normpath(p if p.startswith('/') else posixpath.join(HOME, p))
+
+    realpath = abspath
+    normpath = staticmethod(posixpath.normpath)
+    split = staticmethod(posixpath.split)
+    splitext = staticmethod(posixpath.splitext)
     join = staticmethod(posixpath.join)
     dirname = staticmethod(posixpath.dirname)
     basename = staticmethod(posixpath.basename)
@@ -50,6 +77,24 @@ class FakeOs:
     def makedirs(self, *a, **k):
         raise OSError('read-only simulated file system')
 
+    def stat(self, p):
+        import types
+        if not self.path.exists(p):
+            raise FileNotFoundError(p)
+        mt = self.path.getmtime(p)
+        return types.SimpleNamespace(st_mtime=mt, st_mtime_ns=int(mt * 1e9), st_size=self.path.getsize(p), st_ctime=mt)
+
+    def getenv(self, k, default=None):
+        return self.environ.get(k, default)
+
+    def listdir(self, p):
+        pre = p.rstrip('/') + '/'
+        names = set()
+        for q in list(self.fs.files) + list(self.fs.dirs) + list(self.fs.sockets):
+            if q.startswith(pre):
+                names.add(q[len(pre):].split('/', 1)[0])
+        return sorted(names)
+
 
 class FakeFs:
     def __init__(self, sc):
@@ -57,6 +102,7 @@ class FakeFs:
         self.dirs = set(sc.get('dirs', []))
         self.sockets = set(sc.get('sockets', []))
         self.env = dict(sc.get('env', {}))
+        self.mtimes = dict(sc.get('mtimes', {}))
         self.opened = []
 
     def open(self, path, mode='r', *a, **k):
@@ -187,6 +233,21 @@ class ConfWorld(World):
         sc = self.scenario
         try:
             exp, source, abstain, conf_path = ref_resolve(sc)
+            # 0. an earlier look-up in the same process, when the environment still looked different
+            if sc.get('prior'):
+                now_fs = (self.fs.files, self.fs.dirs, self.fs.sockets, dict(self.fs.env))
+                pr = sc['prior']
+                self.fs.files, self.fs.dirs, self.fs.sockets = dict(pr.get('files', {})), set(pr.get('dirs', [])), set(pr.get('sockets', []))
+                self.fs.env.clear()
+                self.fs.env.update(pr.get('env', {}))
+                try:
+                    self.cc.read_client_conf()
+                except Exception:
+                    pass
+                self.fs.files, self.fs.dirs, self.fs.sockets = now_fs[0], now_fs[1], now_fs[2]
+                self.fs.env.clear()
+                self.fs.env.update(now_fs[3])
+                self.stats['fault.config_changed_between_lookups'] += 1
             # 1. read_client_conf
             conf = None
             try:
@@ -310,7 +371,9 @@ TRANSPORTS_OK = ['unix:///run/nfd/nfd.sock', 'unix:///run/nfd.sock', 'unix:///tm
                  'tcp4://nfd.example.net:6363', 'tcp6://[::1]:6363', 'tcp6://[2001:db8::1]', 'udp://10.9.8.7', 'udp4://10.9.8.7:56363',
                  'udp6://[fe80::2]:6364', 'tcp://localhost', 'udp://router:1']
 TRANSPORTS_BAD = ['ws://10.1.2.3:9696', 'wss://x', 'http://nfd', 'dev://eth0', 'ether://[01:00:5e:00:17:aa]', 'nfd.sock', '',
-                  'tcp:/10.0.0.1', 'internal://', 'unixs:///run/nfd.sock']
+                  'tcp:/10.0.0.1', 'internal://', 'unixs:///run/nfd.sock', 'tcp46://10.1.2.3', 'tcp44://10.1.2.3:6363', 'udp66://[::1]',
+                  'udp64://router', 'tcp5://10.1.2.3', 'udp7://10.1.2.3', 'tcpx://10.1.2.3', 'xtcp://10.1.2.3', 'tcp-4://h', 'udp://',
+                  'unix4:///run/nfd.sock', 'tcp4a://10.0.0.1', 'utcp://10.0.0.1', 'tcp666://10.0.0.1']
 
 
 def generate(rng, seed, tier='quick'):
@@ -389,9 +452,18 @@ def generate(rng, seed, tier='quick'):
                 env['NDN_CLIENT_' + k.upper()] = store(k, rng.randrange(4), conf_dir)
     if rng.random() < 0.3:
         env['NDN_LOG'] = '*=DEBUG'
-    return {'engine': 'clientconf', 'property': 'C20', 'seed': seed, 'config': {'turn_cost_us': 0, 'wall_gran_us': 1000},
-            'frontend': rng.choice(['v2', 'v2', 'v1']), 'files': files, 'dirs': sorted(dirs), 'sockets': sorted(sockets),
-            'env': env, 'ops': [{'k': k} for k in sorted(files)] or [{'k': 'none'}]}
+    sc = {'engine': 'clientconf', 'property': 'C20', 'seed': seed, 'config': {'turn_cost_us': 0, 'wall_gran_us': 1000},
+          'frontend': rng.choice(['v2', 'v2', 'v1']), 'files': files, 'dirs': sorted(dirs), 'sockets': sorted(sockets),
+          'env': env, 'ops': [{'k': k} for k in sorted(files)] or [{'k': 'none'}]}
+    if rng.random() < 0.25:
+        # the same paths held other content (same modification second) when the process looked first
+        pf = {}
+        for path in files or {CONF_PATHS[rng.randrange(4)]: ''}:
+            pf[path] = '\n'.join(f'{k}={v}' for k, v in (('transport', rng.choice(TRANSPORTS_OK)), ('pib', 'pib-sqlite3:/var/lib/ndn/old'),
+                                                           ('tpm', 'tpm-file:/var/lib/ndn/oldtpm')) if rng.random() < 0.8) + '\n'
+        sc['prior'] = {'files': pf, 'dirs': sorted(dirs | {'/var/lib/ndn/old', '/var/lib/ndn/oldtpm'}), 'sockets': sorted(sockets),
+                       'env': {k: rng.choice(TRANSPORTS_OK) if 'TRANSPORT' in k else v for k, v in env.items() if rng.random() < 0.5}}
+    return sc
 
 
 def execute(sc, keep_events=False):
